@@ -1071,4 +1071,55 @@ example : ∃ r' ks' s p,
 
 end InnerStartFull
 
+/-- ⟦C15_inv_dedup⟧ **`C15_reachable_dedup` from the invariant alone**: for ANY forest with the invariant (however it
+    was reached), consolidation never switched off, any tables `E`, any writable document root `r` in the
+    value-level domain and any node of it: `deduplicate_namespaces(node)` answers Ok, replaces exactly the tree of
+    `r` by `r'` (same path of `node`), erases to the tree-level deduplication, and the result is in the domain,
+    writable, and round-trips to a tree `deep_equal` to the one before the call. -/
+theorem C15_inv_dedup (f : Forest) (E : Env) (hi : f.Inv) (hoff : f.everOff = false)
+    (r : HTree) (hr : r ∈ f.roots) (hdoc : r.value.isDocument = true) (henv : envOK E = true)
+    (hval : r.erase.allNodes (fun v _ => valueOK E v) = true)
+    (hid : (xmlIdValues E r.erase).Nodup) (hone : singleRoot r.erase = true)
+    (hwr : namesWritable E r.erase [] = some true)
+    (node : Nat) (hn : node ∈ r.handles) :
+    ((Forest.XCall.deduplicateNamespaces node).run ⟨f, E⟩).2 = .ok ∧
+    ∃ (r' : HTree) (path : Path), r.pathOf node = some path ∧ r'.pathOf node = some path ∧
+      (f.deduplicateNamespaces E node).1.roots = f.roots.map (fun y => if (y.pathOf node).isSome then r' else y) ∧
+      (f.deduplicateNamespaces E node).1.rootOf? node = some r' ∧
+      deduplicateNamespaces E r.erase path = some r'.erase ∧
+      Representable E r'.erase = true ∧ namesWritable E r'.erase [] = some true ∧
+      ∃ s p, toXmlString E r'.erase [] = .ok s ∧ parseString .document E s = .ok p ∧
+        p.tree = r'.erase ∧ p.env = E ∧ deepEqual p.tree r.erase = true := by
+  have hrep : Representable E r.erase = true := by
+    rw [(Reach.representable_root hi hoff hr E).2]
+    simp [henv, hdoc, hval, hid, hone]
+  have h1 := Forest.fpxr_rootOf_of_mem hi.nodup hr hn
+  obtain ⟨path, h2⟩ := Forest.fpxd_rootOf_path h1
+  obtain ⟨r', a1, a2, a3, a4, a5, _, _, _, _⟩ := C15_forest_dedup_refines_tree f hi E node r h1 path h2
+  have hrep' := C15_representable _ r.erase r'.erase path hrep a2
+  obtain ⟨s, p, k1, k2, k3, k4, k5⟩ := C15_roundtrip _ r.erase r'.erase path hrep a2 hwr
+  have hwr' : namesWritable E r'.erase [] = some true := by
+    have hfrag : RepresentableFragment E r'.erase = true := by
+      simp only [Representable, Bool.and_eq_true] at hrep'; exact hrep'.1
+    exact (C01_serialises _ r'.erase hfrag).mp ⟨s, k1⟩
+  exact ⟨a1, r', path, h2, a4, a5, a3, a2, hrep', hwr', s, p, k1, k2, k3, k4, k5⟩
+
+/-- ⟦C15_reachable_creation_dedup⟧ … in particular for the documents built by histories mixing the calls of `Op`
+    with the convenience calls (`creationRun`, `C04_reach_creation`): no side condition on the history. -/
+theorem C15_reachable_creation_dedup (ops : List (Op ⊕ Forest.COp)) (E : Env)
+    (hoff : (creationRun ops).everOff = false)
+    (r : HTree) (hr : r ∈ (creationRun ops).roots) (hdoc : r.value.isDocument = true) (henv : envOK E = true)
+    (hval : r.erase.allNodes (fun v _ => valueOK E v) = true)
+    (hid : (xmlIdValues E r.erase).Nodup) (hone : singleRoot r.erase = true)
+    (hwr : namesWritable E r.erase [] = some true)
+    (node : Nat) (hn : node ∈ r.handles) :
+    ∃ (r' : HTree) (path : Path), r.pathOf node = some path ∧
+      ((creationRun ops).deduplicateNamespaces E node).1.rootOf? node = some r' ∧
+      deduplicateNamespaces E r.erase path = some r'.erase ∧
+      ∃ s p, toXmlString E r'.erase [] = .ok s ∧ parseString .document E s = .ok p ∧
+        p.tree = r'.erase ∧ p.env = E ∧ deepEqual p.tree r.erase = true := by
+  obtain ⟨_, r', path, b1, _, _, b4, b5, _, _, s, p, c1, c2, c3, c4, c5⟩ :=
+    C15_inv_dedup (creationRun ops) E (C04_reach_creation ops) hoff r hr hdoc henv hval hid hone hwr node hn
+  exact ⟨r', path, b1, b4, b5, s, p, c1, c2, c3, c4, c5⟩
+
 end XotModel.Props
